@@ -1,6 +1,7 @@
 package props
 
 import (
+	"bytes"
 	"fmt"
 	"io"
 	"math/rand"
@@ -11,6 +12,7 @@ import (
 	"testing/iotest"
 
 	"github.com/Syuparn/pangaea/object"
+	"github.com/Syuparn/pangaea/runscript"
 
 	"verif/fw"
 	"verif/interp"
@@ -82,14 +84,14 @@ func c16pad(kind string, total int, rng *rand.Rand) string {
 				b.WriteString("\n")
 				break
 			}
-			b.WriteString("#" + strings.Repeat("c", n-1) + "\n")
+			b.WriteString("#" + c16filler("c", n-1, rng) + "\n")
 		}
 	case "one-long-comment":
 		if total < 3 {
 			return strings.Repeat("\n", total)
 		}
 		// first finish the current line, then one comment of total-2 bytes
-		b.WriteString("\n#" + strings.Repeat("x", total-3) + "\n")
+		b.WriteString("\n#" + c16filler("x", total-3, rng) + "\n")
 	case "space-lines":
 		for b.Len() < total {
 			n := 1 + rng.Intn(30)
@@ -110,7 +112,7 @@ func c16pad(kind string, total int, rng *rand.Rand) string {
 			case 0:
 				b.WriteString("\n")
 			case 1:
-				b.WriteString("  \t# mixed " + strings.Repeat("m", rng.Intn(50)) + "\n")
+				b.WriteString("  \t# mixed " + c16filler("m", rng.Intn(50), rng) + "\n")
 			default:
 				b.WriteString(strings.Repeat(" ", rng.Intn(8)) + "\n")
 			}
@@ -120,10 +122,33 @@ func c16pad(kind string, total int, rng *rand.Rand) string {
 		if total < 4 {
 			return strings.Repeat("\n", total)
 		}
-		b.WriteString(" #" + strings.Repeat("t", total-3) + "\n")
+		b.WriteString(" #" + c16filler("t", total-3, rng) + "\n")
 	}
 	// indentation before the next token
 	return b.String() + strings.Repeat(" ", rng.Intn(4))
+}
+
+// c16filler is comment text of exactly n bytes: uniform filler half of the time, otherwise text that looks like
+// code (chain operators after a bar, quotes, brackets, embedded-string openers, escapes) — a comment is one
+// token whatever it contains.
+var c16hostile = []string{"|.rev", " |@p", "|$(0)+", "| .keys", "\"", "`", "#{", "}", ")", "]", "'", "\\", "|", ".", ":=", "?", "# ", "<{", "%{", "é", "\t", " if ", "xs |.S", "|&.a", "|~@b", "|=$c"}
+
+func c16filler(fill string, n int, rng *rand.Rand) string {
+	if n <= 0 {
+		return ""
+	}
+	if rng.Intn(2) == 0 {
+		return strings.Repeat(fill, n)
+	}
+	var b strings.Builder
+	for b.Len() < n {
+		t := c16hostile[rng.Intn(len(c16hostile))]
+		if b.Len()+len(t) > n {
+			t = fill
+		}
+		b.WriteString(t)
+	}
+	return b.String()
 }
 
 var c16padKinds = []string{"blank", "comment-lines", "one-long-comment", "space-lines", "mixed", "trailing-comment"}
@@ -567,6 +592,103 @@ func runC16(w *fw.W) {
 				dk["chunk|"+base.name+"|"+ch.name] = struct{}{}
 			}
 			*sample = fmt.Sprintf("%s (%d bytes) through %d chunking readers: same parse", base.name, len(base.src), len(chunkers))
+		})
+	}
+	// (4) the same long-token programs as script files: ReadFile+RunSource (what `pangaea file` does) and RunTest
+	// on a directory (what `pangaea test dir` does) must print what the program prints when its bytes are
+	// evaluated in process
+	tmpRoot := os.Getenv("VERIF_TMP")
+	if tmpRoot == "" {
+		tmpRoot = os.TempDir()
+	}
+	for _, tk := range []string{"string", "raw-string", "comment", "identifier", "symbol", "embedded-piece", "many-tokens-one-line", "many-short-lines", "crlf"} {
+		tk := tk
+		runBatch("script file "+tk, func(vs *violSet, dk map[string]struct{}, counters map[string]int, sample *string) {
+			if ip == nil {
+				ip = interp.New()
+			}
+			dir, err := os.MkdirTemp(tmpRoot, "c16file")
+			if err != nil {
+				panic("C16 harness: " + err.Error())
+			}
+			defer os.RemoveAll(dir)
+			for _, L := range []int{100, 4095, 4096, 4097, 65535, 65536, 65537, 70000, 131072, 200000} {
+				body := strings.Repeat("a", L)
+				var lines []string
+				switch tk {
+				case "string":
+					lines = []string{`s := "` + body + `"`, "s.len.p"}
+				case "raw-string":
+					lines = []string{"s := `" + body + "`", "s.len.p"}
+				case "comment":
+					lines = []string{"# " + body, `"after comment".p`}
+				case "identifier":
+					lines = []string{"v" + body + " := 7", "v" + body + ".p"}
+				case "symbol":
+					lines = []string{"s := '" + body, "s.len.p"}
+				case "embedded-piece":
+					lines = []string{`s := "#{1}` + body + `#{2}"`, "s.len.p"}
+				case "many-tokens-one-line":
+					// (elements of 100 bytes: the parser's cost grows quadratically with the element count, which is not this property's subject)
+					lines = []string{"s := [" + strings.Repeat(`"`+strings.Repeat("e", 96)+`", `, L/100) + "1]", "s.len.p"}
+				case "many-short-lines":
+					lines = []string{"s := 0"}
+					for i := 0; i < L/7; i++ {
+						lines = append(lines, "s += 1")
+					}
+					lines = append(lines, "s.p")
+				case "crlf":
+					lines = []string{`s := "` + body + `"`, "s.len.p", "[1,", " 2].p"}
+				}
+				sep := "\n"
+				if tk == "crlf" {
+					sep = "\r\n"
+				}
+				src := `"start".p` + sep + strings.Join(lines, sep) + sep + `"end".p` + sep
+				ref := ip.Run(src, interp.Options{FileName: "ref"})
+				if !ref.OK() && tk != "crlf" {
+					panic("C16 harness: script-file base program does not evaluate: " + tk + " " + ref.Outcome() + firstLine(ref.ParseErr))
+				}
+				wantCode := 0
+				if !ref.OK() {
+					wantCode = 1
+				}
+				file := filepath.Join(dir, "prog.pangaea")
+				if err := os.WriteFile(file, []byte(src), 0o644); err != nil {
+					panic("C16 harness: " + err.Error())
+				}
+				w.Note(fmt.Sprintf("script file %s L=%d", tk, L))
+				// pangaea <file>
+				read, rc := runscript.ReadFile(file)
+				var out bytes.Buffer
+				code := rc
+				if rc == 0 {
+					code = runscript.RunSource(read, file, strings.NewReader(""), &out)
+				}
+				counters["script_file_runs"]++
+				if out.String() != ref.Stdout || code != wantCode {
+					vs.add(fmt.Sprintf("C16|script-file|%s|size:%s", tk, sizeClass(L)),
+						fmt.Sprintf("%s token of length %d in a script file: `pangaea file` printed %s (exit %d), the same bytes evaluated in process print %s (exit %d)",
+							tk, L, truncateMid(fmt.Sprintf("%q", out.String()), 160), code, truncateMid(fmt.Sprintf("%q", ref.Stdout), 160), wantCode),
+						map[string]any{"token": tk, "length": L, "entry": "file"})
+				}
+				// pangaea test <dir>
+				var tout bytes.Buffer
+				tcode := runscript.RunTest(dir, strings.NewReader(""), &tout)
+				counters["script_file_runs"]++
+				wantT := "run:  " + file + "\n" + ref.Stdout
+				if wantCode == 0 {
+					wantT += "pass: " + file + "\n"
+				}
+				if tout.String() != wantT || tcode != wantCode {
+					vs.add(fmt.Sprintf("C16|test-dir|%s|size:%s", tk, sizeClass(L)),
+						fmt.Sprintf("%s token of length %d in a test file: `pangaea test dir` printed %s (exit %d), expected %s (exit %d)",
+							tk, L, truncateMid(fmt.Sprintf("%q", tout.String()), 160), tcode, truncateMid(fmt.Sprintf("%q", wantT), 160), wantCode),
+						map[string]any{"token": tk, "length": L, "entry": "test-dir"})
+				}
+				dk[fmt.Sprintf("file|%s|%d", tk, L)] = struct{}{}
+			}
+			*sample = fmt.Sprintf("script files with %s of 100…200000 bytes: file and test-dir entry points print what the bytes print in process", tk)
 		})
 	}
 	_ = object.BuiltInNil
